@@ -23,6 +23,27 @@ LEMMAS = {}
 LEMMA_LOG = []
 
 
+LEMMA_CACHE_FILE = None      # set by the driver: per-run file shared by the workers (never reused across runs)
+
+
+def _load_lemma_cache():
+    import json, os
+    if LEMMA_CACHE_FILE and os.path.exists(LEMMA_CACHE_FILE):
+        try:
+            for line in open(LEMMA_CACHE_FILE):
+                k, b, r = json.loads(line)
+                LEMMAS.setdefault((k, b), r)
+        except Exception:
+            pass
+
+
+def _store_lemma(key, r):
+    import json
+    if LEMMA_CACHE_FILE:
+        with open(LEMMA_CACHE_FILE, "a") as f:
+            f.write(json.dumps([key[0], key[1], r]) + "\n")
+
+
 def _nonneg(v):
     return (isinstance(v, int) and v >= 0) or (isinstance(v, SymBV) and not v.signed)
 
@@ -353,6 +374,8 @@ class OpsMixin:
         """forall 0 <= a <= 2^bits: trunc(fp(a)/fp(k)) == a div k, decided once as a QF_BVFP query."""
         key = (k, bits)
         if key not in LEMMAS:
+            _load_lemma_cache()
+        if key not in LEMMAS:
             w = 64
             cb = z3.BitVec("cb", w)
             s = z3.Solver()
@@ -364,6 +387,7 @@ class OpsMixin:
             t0 = time.time()
             r = str(s.check())
             LEMMAS[key] = r
+            _store_lemma(key, r)
             LEMMA_LOG.append({"lemma": f"forall 0<=a<=2^{bits}: trunc(fp(a)/fp({k})) == a div {k}", "result": r,
                               "solver_s": round(time.time() - t0, 2)})
             self.stats["lemma_s"] += time.time() - t0
